@@ -144,6 +144,7 @@ func c13Run(c *core.Ctx, r *core.Result, pt c13Point) {
 	var entries []fake.Entry
 	type pair struct{ src, dst string }
 	var pairs []pair
+	firsts := map[int]int64{} // entry index -> amount of the allowed pUSD->pEUR conversion that precedes the pair in its batch
 	for b.Next() < pt.exec+1 {
 		h := b.Next()
 		s := drive.BlockSpec{}
@@ -173,6 +174,19 @@ func c13Run(c *core.Ctx, r *core.Result, pt c13Point) {
 					entries = append(entries, e)
 					pairs = append(pairs, pair{src, dst})
 				}
+			}
+			// the same destinations in SECOND position of a batch whose first conversion is always allowed:
+			// the rule applies to every transaction of a batch, and a batch is rejected whole
+			for j := 0; j < 62; j++ {
+				dst := assetName(j)
+				if dst == "pUSD" {
+					continue
+				}
+				n++
+				e := b.Tx(KR, kit.Conversion(R, "pUSD", uint64(500+n), "pEUR"), kit.Conversion(R, "pUSD", uint64(1000+n), dst))
+				entries = append(entries, e)
+				pairs = append(pairs, pair{"pUSD", dst})
+				firsts[len(pairs)-1] = int64(500 + n)
 			}
 			s.TX = append(s.TX, entries...)
 		}
@@ -225,6 +239,9 @@ func c13Run(c *core.Ctx, r *core.Result, pt c13Point) {
 	mismatches := 0
 	for i, p := range pairs {
 		key := fmt.Sprintf("%s/%s>%s", pt.name, p.src, p.dst)
+		if _, second := firsts[i]; second {
+			key += "/second-in-batch"
+		}
 		if bankEra && p.dst == "PEG" {
 			continue // C16
 		}
@@ -248,8 +265,20 @@ func c13Run(c *core.Ctx, r *core.Result, pt c13Point) {
 			forbidden = "average unavailable"
 		}
 		wantExec := false
-		var wantAmt int64
-		if forbidden == "" && bal[p.src] >= amount {
+		var wantAmt, firstAmt, firstOut int64
+		if fa, ok := firsts[i]; ok {
+			firstAmt = fa
+			// the preceding conversion pUSD->pEUR must itself be allowed at this point, else the batch says nothing about the pair
+			if spot["pUSD"] == 0 || spot["pEUR"] == 0 || (avgS != nil && (avgS("pUSD") == 0 || avgS("pEUR") == 0)) {
+				continue
+			}
+			src, dst := spot["pUSD"], spot["pEUR"]
+			if avgS != nil {
+				src, dst = minU(src, avgS("pUSD")), maxU(dst, avgS("pEUR"))
+			}
+			firstOut, _ = RefConvert(firstAmt, src, dst)
+		}
+		if forbidden == "" && bal[p.src] >= amount+firstAmt {
 			src, dst := spot[p.src], spot[p.dst]
 			if avgS != nil {
 				src, dst = minU(src, avgS(p.src)), maxU(dst, avgS(p.dst))
@@ -261,6 +290,10 @@ func c13Run(c *core.Ctx, r *core.Result, pt c13Point) {
 		if wantExec {
 			bal[p.src] -= amount
 			bal[p.dst] += wantAmt
+			if firstAmt > 0 {
+				bal["pUSD"] -= firstAmt
+				bal["pEUR"] += firstOut
+			}
 		}
 		eh := fake.EntryHash(drive.IDs.TX, entries[i])
 		ehx := hex.EncodeToString(eh[:])
@@ -270,8 +303,8 @@ func c13Run(c *core.Ctx, r *core.Result, pt c13Point) {
 		if len(rows) == 1 {
 			status = rows[0].Executed
 			gotExec = status > 0
-			if len(post.Txs[ehx]) == 1 {
-				gotAmt = post.Txs[ehx][0].ToAmount
+			if txs := post.Txs[ehx]; len(txs) >= 1 {
+				gotAmt = txs[len(txs)-1].ToAmount // the pair is the last transaction of its batch
 			}
 		}
 		r.Outcome(fmt.Sprintf("model-exec=%v", wantExec))
